@@ -38,7 +38,10 @@ theorem find_touch (w : World) (d p : Path) :
     find (touch w d) p = if d = p then (find w d).map clearM else find w p := by
   unfold touch
   cases h : find w d with
-  | none => by_cases e : d = p <;> simp [e, ← h]
+  | none =>
+    by_cases e : d = p
+    · subst e; simp [h]
+    · simp [e]
   | some n => simp only [find_insert]; by_cases e : d = p <;> simp [e, clearM]
 
 theorem touch_eqv (w : World) (d p : Path) : Eqv (find w p) (find (touch w d) p) := by
@@ -81,8 +84,11 @@ theorem isChildOf_iff (d k : Path) (nm : String) :
   · rintro ⟨h1, h2⟩
     simp only [isChildOf, Bool.and_eq_true, bne_iff_ne, ne_eq, beq_iff_eq] at h1
     obtain ⟨hne, hd⟩ := h1
-    have := List.dropLast_append_getLast? (l := k) nm (by simp [h2])
-    rw [hd] at this; exact this.symm
+    have h3 := List.dropLast_concat_getLast hne
+    have h4 : k.getLast hne = nm := by
+      have := List.getLast?_eq_some_getLast hne
+      rw [h2] at this; exact (Option.some.inj this).symm
+    rw [hd, h4] at h3; exact h3.symm
   · rintro rfl
     simp [isChildOf]
 
@@ -124,7 +130,7 @@ theorem hasChild_iff (w : World) (d : Path) :
 /-! ### path resolution along real directories -/
 
 theorem simple_iff (c : String) : simple c = true ↔ c ≠ "" ∧ c ≠ "." ∧ c ≠ ".." := by
-  simp [simple, not_or]
+  simp [simple, and_assoc]
 
 /-- Resolution is lexical when every intermediate component is an ordinary name naming a real
 directory; the final component may be anything when it is not followed, anything but a link when it is. -/
@@ -198,5 +204,255 @@ theorem resolve_entry {w : World} {d : Path} (h : LexDir w d) (nm : String) (hs 
 theorem LexDir.of_eqv {w w' : World} {d : Path} (h : LexDir w d)
     (he : ∀ pre, pre <+: d → Eqv (find w pre) (find w' pre)) : LexDir w' d :=
   ⟨h.1, fun pre hp => by rw [(he pre hp).isDir]; exact h.2 pre hp⟩
+
+/-! ### entries of a real directory: OS-level operation = physical operation -/
+
+theorem ne_concat (d : Path) (nm : String) : d ≠ d ++ [nm] := by
+  intro h; have := congrArg List.length h; simp at this
+
+theorem concat_inj (d : Path) (a b : String) : d ++ [a] = d ++ [b] ↔ a = b := by simp
+
+section entry
+variable {w : World} {d : Path} (h : LexDir w d) (nm : String) (hs : simple nm = true)
+include h hs
+
+theorem create_entry (mode : Nat) : create w (d ++ [nm]) mode = pCreate w (d ++ [nm]) mode := by
+  simp [create, withPath, resolve_entry h nm hs false (Or.inl rfl)]
+theorem remove_entry : remove w (d ++ [nm]) = pRemove w (d ++ [nm]) := by
+  simp [remove, withPath, resolve_entry h nm hs false (Or.inl rfl)]
+theorem symlink_entry (t : List String) : symlink w t (d ++ [nm]) = pSymlink w t (d ++ [nm]) := by
+  simp [symlink, withPath, resolve_entry h nm hs false (Or.inl rfl)]
+theorem mkdir_entry (mode : Nat) : mkdir w (d ++ [nm]) mode = pMkdir w (d ++ [nm]) mode := by
+  simp [mkdir, withPath, resolve_entry h nm hs false (Or.inl rfl)]
+theorem utimens_entry (t : Nat) : utimensNoFollow w (d ++ [nm]) t = pUtimens w (d ++ [nm]) t := by
+  simp [utimensNoFollow, withPath, resolve_entry h nm hs false (Or.inl rfl)]
+theorem lstat_entry : lstat w (d ++ [nm]) =
+    match find w (d ++ [nm]) with | some n => .ok n | none => .error .noent := by
+  simp only [lstat, resolve_entry h nm hs false (Or.inl rfl)]
+  cases find w (d ++ [nm]) <;> rfl
+theorem append_entry (hl : isLink (find w (d ++ [nm])) = false) (bs : List UInt8) :
+    append w (d ++ [nm]) bs = pAppend w (d ++ [nm]) bs := by
+  simp [append, withPath, resolve_entry h nm hs true (Or.inr hl)]
+theorem openTrunc_entry (hl : isLink (find w (d ++ [nm])) = false) (mode : Nat) :
+    openTrunc w (d ++ [nm]) mode = pOpenTrunc w (d ++ [nm]) mode := by
+  simp [openTrunc, withPath, resolve_entry h nm hs true (Or.inr hl)]
+theorem chmod_entry (hl : isLink (find w (d ++ [nm])) = false) (mode : Nat) :
+    chmod w (d ++ [nm]) mode = pChmod w (d ++ [nm]) mode := by
+  simp [chmod, withPath, resolve_entry h nm hs true (Or.inr hl)]
+theorem stat_entry (hl : isLink (find w (d ++ [nm])) = false) : stat w (d ++ [nm]) =
+    match find w (d ++ [nm]) with | some n => .ok n | none => .error .noent := by
+  simp only [stat, resolve_entry h nm hs true (Or.inr hl)]
+  cases find w (d ++ [nm]) <;> rfl
+theorem rename_entry (nm2 : String) (hs2 : simple nm2 = true) :
+    rename w (d ++ [nm]) (d ++ [nm2]) = pRename w (d ++ [nm]) (d ++ [nm2]) := by
+  simp [rename, resolve_entry h nm hs false (Or.inl rfl), resolve_entry h nm2 hs2 false (Or.inl rfl)]
+end entry
+
+theorem readDirNames_lexdir {w : World} {d : Path} (h : LexDir w d) : readDirNames w d = .ok (childNames w d) := by
+  have hd := h.2 d (List.prefix_refl d)
+  cases hf : find w d with
+  | none => simp [hf, isDir] at hd
+  | some n =>
+    have : n.kind = .dir := by simpa [hf, isDir] using hd
+    simp [readDirNames, resolve_lexdir h true, hf, this]
+
+/-! ### `find` after "change entry `d ++ [nm]`, touch `d`" -/
+
+theorem find_insert_touch (w : World) (d : Path) (nm : String) (v : Node) (p : Path) :
+    find (touch (AMap.insert w (d ++ [nm]) v) d) p =
+      if p = d ++ [nm] then some v else if p = d then (find w d).map clearM else find w p := by
+  rw [find_touch]
+  by_cases h1 : p = d ++ [nm]
+  · subst h1; simp [find_insert]
+  · by_cases h2 : p = d
+    · subst h2; simp [find_insert, (ne_concat p nm).symm, h1]
+    · have : ¬ d = p := fun e => h2 e.symm
+      have h3 : ¬ d ++ [nm] = p := fun e => h1 e.symm
+      simp [h1, h2, this, find_insert, h3]
+
+theorem find_erase_touch (w : World) (d : Path) (nm : String) (p : Path) :
+    find (touch (AMap.erase w (d ++ [nm])) d) p =
+      if p = d ++ [nm] then none else if p = d then (find w d).map clearM else find w p := by
+  rw [find_touch]
+  by_cases h1 : p = d ++ [nm]
+  · subst h1; simp [find_erase]
+  · by_cases h2 : p = d
+    · subst h2; simp [find_erase, (ne_concat p nm).symm, h1]
+    · have : ¬ d = p := fun e => h2 e.symm
+      have h3 : ¬ d ++ [nm] = p := fun e => h1 e.symm
+      simp [h1, h2, this, find_erase, h3]
+
+/-! ### resolution when no component is a symlink: it fails or every directory on the way is real -/
+
+theorem walk_dich (w : World) (fuel : Nat) : ∀ (comps : List String) (cur : Path),
+    (∀ c ∈ comps, simple c = true) →
+    (∀ pre, pre <+: comps → pre ≠ comps → pre ≠ [] → isLink (find w (cur ++ pre)) = false) →
+    (∃ e, walk w fuel cur comps false = .error e) ∨
+    (∀ pre, pre <+: comps → pre ≠ comps → pre ≠ [] → isDir (find w (cur ++ pre)) = true) := by
+  intro comps
+  induction comps with
+  | nil => intro cur _ _; right; intro pre hp hne hnil; simp at hp; exact absurd hp hnil
+  | cons c rest ih =>
+    intro cur hs hl
+    have hc := (simple_iff c).mp (hs c (by simp))
+    have h1 : trivialComp c = false := by simp [trivialComp, hc.1, hc.2.1]
+    have h2 : (c == "..") = false := by simp [hc.2.2]
+    by_cases hr : rest = []
+    · subst hr
+      right
+      intro pre hp hne hnil
+      rcases List.prefix_cons_iff.mp hp with e | ⟨t, e, ht⟩
+      · exact absurd e hnil
+      · simp at ht; subst ht; exact absurd e hne
+    · have hre : rest.isEmpty = false := by simpa using hr
+      have hlc := hl [c] (by simp) (by simp [hr]) (by simp)
+      rw [walk]
+      simp only [h1, h2, Bool.false_eq_true, if_false]
+      cases hf : find w (cur ++ [c]) with
+      | none => left; simp [hre]
+      | some n =>
+        simp only
+        cases hk : n.kind with
+        | file => left; simp [hre]
+        | link => simp [hf, isLink, hk] at hlc
+        | dir =>
+          simp only
+          rcases ih (cur ++ [c]) (fun c' hc' => hs c' (by simp [hc']))
+            (fun pre hp hne hnil => by
+              have := hl (c :: pre) (by simpa using hp) (by simpa using hne) (by simp)
+              simpa using this) with h | h
+          · exact Or.inl h
+          · right
+            intro pre hp hne hnil
+            rcases List.prefix_cons_iff.mp hp with e | ⟨t, e, ht⟩
+            · exact absurd e hnil
+            · subst e
+              by_cases htn : t = []
+              · subst htn; simp [hf, isDir, hk]
+              · have := h t ht (by simpa using hne) htn
+                simpa using this
+
+/-- no prefix of `par` (the directories on the way to an entry of `par`) is a symbolic link -/
+def NoLinkUpTo (w : World) (par : Path) : Prop := ∀ q, q <+: par → isLink (find w q) = false
+
+theorem LexDir.noLink {w : World} {d : Path} (h : LexDir w d) : NoLinkUpTo w d := by
+  intro q hq
+  have := h.2 q hq
+  cases hf : find w q with
+  | none => rfl
+  | some n => simp only [hf, isDir, beq_iff_eq] at this; simp [isLink, this]
+
+/-- Either resolving an entry of `par` fails, or `par` is a real directory reached through real directories. -/
+theorem resolve_dich {w : World} {par : Path} (hroot : isDir (find w []) = true)
+    (hs : ∀ c ∈ par, simple c = true) (hn : NoLinkUpTo w par) (nm : String) (hnm : simple nm = true) :
+    (∃ e, resolve w (par ++ [nm]) false = .error e) ∨ LexDir w par := by
+  have hpre : ∀ pre, pre <+: par ++ [nm] → pre ≠ par ++ [nm] → pre <+: par := by
+    intro pre hp hne
+    rcases List.prefix_concat_iff.mp hp with h1 | h1
+    · exact absurd h1 hne
+    · exact h1
+  rcases walk_dich w maxLinks (par ++ [nm]) []
+    (fun c hc => by rcases List.mem_append.mp hc with h1 | h1; exact hs c h1; simp at h1; subst h1; exact hnm)
+    (fun pre hp hne _ => by simpa using hn pre (hpre pre hp hne)) with h | h
+  · exact Or.inl h
+  · right
+    refine ⟨hs, fun pre hp => ?_⟩
+    by_cases hnil : pre = []
+    · subst hnil; exact hroot
+    · have := h pre (hp.trans (List.prefix_append par [nm])) (by
+        intro e; have := hp.length_le; rw [e] at this; simp at this; omega) hnil
+      simpa using this
+
+/-- when `par` is not a real directory every non-following operation on an entry of it fails -/
+theorem resolve_fails {w : World} {par : Path} (hroot : isDir (find w []) = true)
+    (hs : ∀ c ∈ par, simple c = true) (hn : NoLinkUpTo w par) (hnl : ¬ LexDir w par)
+    (nm : String) (hnm : simple nm = true) : ∃ e, resolve w (par ++ [nm]) false = .error e := by
+  rcases resolve_dich hroot hs hn nm hnm with h | h
+  · exact h
+  · exact absurd h hnl
+
+/-! ### steps inside one directory -/
+
+/-- `w'` differs from `w` at most in the entries `par ++ [nm]`, `nm ∈ S`, and in the mtime of `par` -/
+structure EStep (par : Path) (S : List String) (w w' : World) : Prop where
+  frame : ∀ q, (∀ nm ∈ S, q ≠ par ++ [nm]) → q ≠ par → find w' q = find w q
+  parent : Eqv (find w par) (find w' par)
+
+theorem EStep.refl (par : Path) (S : List String) (w : World) : EStep par S w w := ⟨fun _ _ _ => rfl, Eqv.refl _⟩
+
+theorem EStep.trans {par : Path} {S S' : List String} {w w' w'' : World} (h1 : EStep par S w w') (h2 : EStep par S' w' w'') :
+    EStep par (S ++ S') w w'' :=
+  ⟨fun q hq hp => by
+    rw [h2.frame q (fun nm hm => hq nm (List.mem_append_right _ hm)) hp,
+        h1.frame q (fun nm hm => hq nm (List.mem_append_left _ hm)) hp],
+   h1.parent.trans h2.parent⟩
+
+theorem EStep.mono {par : Path} {S S' : List String} {w w' : World} (h : EStep par S w w') (hs : ∀ a ∈ S, a ∈ S') :
+    EStep par S' w w' := ⟨fun q hq hp => h.frame q (fun nm hm => hq nm (hs nm hm)) hp, h.parent⟩
+
+/-- nodes that are not an entry in `S` keep their kind -/
+theorem EStep.eqv {par : Path} {S : List String} {w w' : World} (h : EStep par S w w') (q : Path)
+    (hq : ∀ nm ∈ S, q ≠ par ++ [nm]) : Eqv (find w q) (find w' q) := by
+  by_cases e : q = par
+  · subst e; exact h.parent
+  · exact Eqv.of_eq (h.frame q hq e)
+
+theorem EStep.lexDir {par : Path} {S : List String} {w w' : World} (h : EStep par S w w') {d : Path}
+    (hd : LexDir w d) (hp : d <+: par) : LexDir w' d :=
+  hd.of_eqv fun pre hpre => h.eqv pre (fun nm _ e => by
+    have := (hpre.trans hp).length_le; rw [e] at this; simp at this; omega)
+
+theorem estep_insert_touch (w : World) (par : Path) (nm : String) (v : Node) :
+    EStep par [nm] w (touch (AMap.insert w (par ++ [nm]) v) par) :=
+  ⟨fun q hq hp => by rw [find_insert_touch]; simp [hq nm (by simp), hp],
+   by rw [find_insert_touch]; simp only [(ne_concat par nm), if_false, if_true]
+      unfold Eqv; cases find w par <;> simp [clearM]⟩
+
+theorem estep_erase_touch (w : World) (par : Path) (nm : String) :
+    EStep par [nm] w (touch (AMap.erase w (par ++ [nm])) par) :=
+  ⟨fun q hq hp => by rw [find_erase_touch]; simp [hq nm (by simp), hp],
+   by rw [find_erase_touch]; simp only [(ne_concat par nm), if_false, if_true]
+      unfold Eqv; cases find w par <;> simp [clearM]⟩
+
+theorem estep_insert (w : World) (par : Path) (nm : String) (v : Node) :
+    EStep par [nm] w (AMap.insert w (par ++ [nm]) v) :=
+  ⟨fun q hq _ => by
+      rw [find_insert]; have := hq nm (by simp)
+      have h2 : ¬ par ++ [nm] = q := fun e => this e.symm
+      simp [h2],
+   by rw [find_insert]; simp [(ne_concat par nm).symm, Eqv.refl]⟩
+
+/-- `find` after renaming the non-directory `par/a` to `par/b` -/
+theorem find_rename_touch (w : World) (par : Path) (a b : String) (n : Node) (p : Path) :
+    find (touch (touch (AMap.insert (AMap.erase w (par ++ [a])) (par ++ [b]) n) par) par) p =
+      if p = par ++ [b] then some n else if p = par ++ [a] then none
+      else if p = par then (find w par).map clearM else find w p := by
+  rw [find_touch, find_insert_touch, find_insert_touch]
+  by_cases h1 : p = par ++ [b]
+  · subst h1; simp [ne_concat]
+  · by_cases h3 : p = par
+    · subst h3
+      simp only [(ne_concat p b).symm, (ne_concat p a).symm, if_false, if_true, find_erase]
+      cases find w p <;> simp [clearM]
+    · have h3' : ¬ par = p := fun e => h3 e.symm
+      simp only [h1, h3, h3', if_false, find_erase]
+      by_cases h2 : p = par ++ [a]
+      · subst h2; simp
+      · have : ¬ par ++ [a] = p := fun e => h2 e.symm
+        simp [h2, this]
+
+theorem pRename_file_absent (w : World) (par : Path) (a b : String) (hne : a ≠ b) (n : Node)
+    (hf : find w (par ++ [a]) = some n) (hk : n.kind ≠ .dir) (hd : find w (par ++ [b]) = none) :
+    pRename w (par ++ [a]) (par ++ [b]) =
+      (touch (touch (AMap.insert (AMap.erase w (par ++ [a])) (par ++ [b]) n) par) par, none) := by
+  have h1 : (par ++ [a] == par ++ [b]) = false := by simpa using hne
+  have h2 : (par ++ [a]).isPrefixOf (par ++ [b]) = false := by
+    rw [Bool.eq_false_iff]; intro h
+    rw [List.isPrefixOf_iff_prefix] at h
+    have := List.IsPrefix.eq_of_length h (by simp)
+    exact hne (by simpa using this)
+  have h3 : (n.kind == Kind.dir) = false := by simpa using hk
+  unfold pRename
+  simp [hf, h1, h2, h3, hd]
 
 end FS
